@@ -381,6 +381,47 @@ def r4_progress(ctx):
     ctx.check(ok, "C18.R4", g, loops[0] if loops else g.node, "the visit loop advances by the validated spacing", "the visit loop no longer advances by N(distance_visit_mean, distance_visit_std)", construct="visit loop increment")
 
 
+STRICTLY_POSITIVE = {"patient_number", "distance_visit_mean"}  # keys the validation refuses when <= 0 (C18.R1 / C18.R4 check those refusals); the others may be 0
+
+
+def r10_no_division_by_a_design_parameter(ctx):
+    """'every design that satisfies the documented requirements runs to completion': the validation accepts 0 for the standard deviations
+    (a fixed follow-up, regular visits) and for the means - so the generating code must not divide by one of them (nor take its log)."""
+    from ..astq import Inliner
+    ctx.rule("C18.R10", "the generating functions never divide by (or take the log of) a design parameter that the validation allows to be 0", 3)
+    n = 0
+    cp = ctx.ix.func(SIM, f"{CLS}._check_params", "C18.R10")
+    src_cp = U(cp.node)
+    ctx.anchor("param == 'patient_number' and value <= 0" in src_cp and "param.endswith('_std') and value < 0" in src_cp, "C18.R10", cp, cp.node,
+               "the validation refuses patient_number <= 0 and only negative standard deviations (table STRICTLY_POSITIVE of this rule)", "validation of the signs of the design parameters", construct="sign table")
+    for name in ("_generate_visit_ages", "_generate_dataset", "_sample_individual_parameters_from_model_parameters"):
+        f = ctx.ix.func(SIM, f"{CLS}.{name}", "C18.R10")
+        inl = Inliner(f.node)
+
+        def key_of(e):
+            e = inl.resolve(e)
+            for x in ast.walk(e):
+                if isinstance(x, ast.Subscript) and U(x.value) == "self.param_study" and isinstance(x.slice, ast.Constant):
+                    return x.slice.value
+            return None
+        for x in ast.walk(f.node):
+            den = None
+            if isinstance(x, ast.BinOp) and isinstance(x.op, (ast.Div, ast.FloorDiv, ast.Mod)):
+                den = x.right
+            elif isinstance(x, ast.Call) and U(x.func) in ("np.log", "math.log", "torch.log", "np.reciprocal") and x.args:
+                den = x.args[0]
+            if den is None:
+                continue
+            k = key_of(den)
+            if k is None:
+                continue
+            n += 1
+            ctx.check(k in STRICTLY_POSITIVE, "C18.R10", f, x, f"`{k}` is refused when <= 0 by the validation",
+                      f"`{U(x)[:70]}` divides by the design parameter `{k}`, which the validation allows to be 0 (only negative values are refused): a valid design "
+                      "(e.g. a fixed follow-up duration, std = 0) ends in ZeroDivisionError / inf instead of running to completion")
+        ctx.ok("C18.R10", f, f.node, "no division by a design parameter that may be 0", construct=f"def {name}")
+
+
 def r5_beta_domain(ctx):
     """'finite values within [0,1]' and 'every design that satisfies the requirements runs to completion': the noiseless model values are
     the means of Beta draws; mean 0 or 1 gives a zero variance bound and NaN shape parameters (scipy raises / returns NaN).  The values
@@ -558,6 +599,7 @@ def rules(ctx):
     r6_at_least_one_visit(ctx)
     r7_options_reach_param_study(ctx)
     r8_table_ages_keyed_by_their_own_id(ctx)
+    r10_no_division_by_a_design_parameter(ctx)
     # whether a design is accepted depends on the design alone: the tables of requirements / defaults of the class are never written
     # (same rule as C13.R5, restricted to the simulation package)
     from .c13 import r5_shared_defaults
